@@ -163,6 +163,7 @@ func (p *Program) checkEffectsC12(cfg *effectCfg) []effectObl {
 					Detail: strings.Join(detail, "; "), Pos: p.fset.Position(fd.Pos()).String()})
 				obls = append(obls, effectObl{Name: fname + "#effect:no-write-to-shared-object-fields", OK: sharedWrites == 0 || isConstructor(fd),
 					Detail: strings.Join(sdetail, "; "), Pos: p.fset.Position(fd.Pos()).String()})
+				obls = append(obls, p.pooledBufferObligations(fname, fd, info)...)
 				goOK := goStmts == 0
 				for _, g := range cfg.GoAllowed {
 					if g == fname {
@@ -220,6 +221,148 @@ func immutableValueType(t types.Type) bool {
 		return true
 	}
 	return false
+}
+
+// pooledBufferObligations: a value taken from a sync.Pool belongs to the taking function until its
+// Put: it must be bound to a local, Put back in the same function, and never escape (returned, stored
+// into a field / global / element, sent, or captured by a go statement) - otherwise two connections
+// can hold the same transfer buffer.
+func (p *Program) pooledBufferObligations(fname string, fd *ast.FuncDecl, info *types.Info) []effectObl {
+	isPoolMethod := func(call *ast.CallExpr, name string) bool {
+		sel, ok := call.Fun.(*ast.SelectorExpr)
+		if !ok || sel.Sel.Name != name {
+			return false
+		}
+		f, ok := info.Uses[sel.Sel].(*types.Func)
+		return ok && f.Pkg() != nil && f.Pkg().Path() == "sync" && strings.Contains(f.FullName(), "Pool")
+	}
+	var out []effectObl
+	pooled := map[types.Object]bool{}
+	nget := 0
+	var gets []*ast.CallExpr
+	ast.Inspect(fd.Body, func(n ast.Node) bool {
+		if c, ok := n.(*ast.CallExpr); ok && isPoolMethod(c, "Get") {
+			gets = append(gets, c)
+		}
+		return true
+	})
+	if len(gets) == 0 {
+		// a Put without a Get in the same function hands a foreign buffer to the pool
+		nput := 0
+		ast.Inspect(fd.Body, func(n ast.Node) bool {
+			if c, ok := n.(*ast.CallExpr); ok && isPoolMethod(c, "Put") {
+				nput++
+			}
+			return true
+		})
+		if nput > 0 {
+			out = append(out, effectObl{Name: fname + "#effect:pooled-buffer-put-only-what-was-taken-here", OK: false,
+				Detail: "sync.Pool.Put without a Get in the same function", Pos: p.fset.Position(fd.Pos()).String()})
+		}
+		return out
+	}
+	// bind: v := pool.Get() / v := pool.Get().(T)
+	ast.Inspect(fd.Body, func(n ast.Node) bool {
+		as, ok := n.(*ast.AssignStmt)
+		if !ok || len(as.Lhs) != 1 || len(as.Rhs) != 1 {
+			return true
+		}
+		rhs := ast.Unparen(as.Rhs[0])
+		if ta, ok := rhs.(*ast.TypeAssertExpr); ok {
+			rhs = ast.Unparen(ta.X)
+		}
+		if c, ok := rhs.(*ast.CallExpr); ok && isPoolMethod(c, "Get") {
+			if id, ok := as.Lhs[0].(*ast.Ident); ok {
+				if o := info.ObjectOf(id); o != nil {
+					if v, isVar := o.(*types.Var); isVar && v.Parent() != v.Pkg().Scope() {
+						pooled[o] = true
+						nget++
+					}
+				}
+			}
+		}
+		return true
+	})
+	out = append(out, effectObl{Name: fname + "#effect:pooled-buffer-bound-to-a-local", OK: nget == len(gets),
+		Detail: "every sync.Pool.Get result must be bound directly to a local variable", Pos: p.fset.Position(fd.Pos()).String()})
+	mentions := func(e ast.Node) bool {
+		found := false
+		ast.Inspect(e, func(n ast.Node) bool {
+			if id, ok := n.(*ast.Ident); ok && pooled[info.Uses[id]] {
+				found = true
+			}
+			return true
+		})
+		return found
+	}
+	escapes := []string{}
+	puts := 0
+	ast.Inspect(fd.Body, func(n ast.Node) bool {
+		switch a := n.(type) {
+		case *ast.ReturnStmt:
+			for _, r := range a.Results {
+				// a call that merely uses the buffer and returns something else is fine: only a direct
+				// mention outside call arguments escapes
+				if mentionsOutsideCalls(r, func(id *ast.Ident) bool { return pooled[info.Uses[id]] }) {
+					escapes = append(escapes, p.fset.Position(a.Pos()).String()+": returned")
+				}
+			}
+		case *ast.AssignStmt:
+			for i, l := range a.Lhs {
+				if i < len(a.Rhs) && mentionsOutsideCalls(a.Rhs[i], func(id *ast.Ident) bool { return pooled[info.Uses[id]] }) {
+					if id, ok := l.(*ast.Ident); ok {
+						if v, ok := info.ObjectOf(id).(*types.Var); ok && v.Pkg() != nil && v.Parent() != v.Pkg().Scope() {
+							pooled[v] = true // local alias
+							continue
+						}
+					}
+					escapes = append(escapes, p.fset.Position(a.Pos()).String()+": stored outside the function's locals")
+				}
+			}
+		case *ast.SendStmt:
+			if mentions(a.Value) {
+				escapes = append(escapes, p.fset.Position(a.Pos()).String()+": sent on a channel")
+			}
+		case *ast.GoStmt:
+			if mentions(a.Call) {
+				escapes = append(escapes, p.fset.Position(a.Pos()).String()+": captured by a go statement")
+			}
+		case *ast.CallExpr:
+			if isPoolMethod(a, "Put") {
+				if len(a.Args) == 1 && mentions(a.Args[0]) {
+					puts++
+				} else {
+					escapes = append(escapes, p.fset.Position(a.Pos()).String()+": Put of a value not taken here")
+				}
+			}
+		}
+		return true
+	})
+	out = append(out, effectObl{Name: fname + "#effect:pooled-buffer-does-not-escape-its-get-put-scope", OK: len(escapes) == 0,
+		Detail: strings.Join(escapes, "; "), Pos: p.fset.Position(fd.Pos()).String()})
+	out = append(out, effectObl{Name: fname + "#effect:pooled-buffer-put-back-by-the-taking-function", OK: puts >= len(gets),
+		Detail: fmt.Sprintf("%d Get, %d Put of the taken value", len(gets), puts), Pos: p.fset.Position(fd.Pos()).String()})
+	return out
+}
+
+// mentionsOutsideCalls: e mentions a matching identifier other than inside the argument list of a call
+// (a call uses the value for its duration; its result is a different value).
+func mentionsOutsideCalls(e ast.Expr, match func(*ast.Ident) bool) bool {
+	found := false
+	var walk func(n ast.Node) bool
+	walk = func(n ast.Node) bool {
+		switch a := n.(type) {
+		case *ast.CallExpr:
+			return false
+		case *ast.Ident:
+			if match(a) {
+				found = true
+			}
+		}
+		return true
+	}
+	ast.Inspect(e, walk)
+	return found
 }
 
 func isConstructor(fd *ast.FuncDecl) bool {
